@@ -241,7 +241,7 @@ def run(pid, tier, seed, replay=None):
         "skipped_unrepresentable": unrep,
         "monitors_of_other_properties_fired": others,
         "replay_note": note,
-        "thread_based_communicator": win,
+        "real_kernel_exchanges": win,
         "pipeline_capture": pl,
         "tlc_generated_behaviours_replayed": sum(1 for s in scs if "events" in s),
         "refinement": {"behaviours_replayed": same + len(drift), "same_system_call_sequence_as_model": same,
